@@ -9,7 +9,9 @@ import json
 import os
 import re
 import shutil
+import queue
 import subprocess
+import threading
 import sys
 import tempfile
 import time
@@ -75,6 +77,14 @@ def scratch_dir(tag="s"):
 # running garden
 
 
+def limit_memory():
+    """Children get a bounded address space: a non-terminating allocation in
+    the code under test must kill that child, not the machine."""
+    import resource
+    gb = int(os.environ.get("VERIF_GARDEN_AS_GB", "6"))
+    resource.setrlimit(resource.RLIMIT_AS, (gb << 30, gb << 30))
+
+
 def garden(args, input=None, timeout=30, cwd=None, env=None):
     """Run the garden CLI. Returns (returncode, stdout, stderr); returncode is
     None on timeout. Negative returncode = killed by signal."""
@@ -87,7 +97,7 @@ def garden(args, input=None, timeout=30, cwd=None, env=None):
         kw = {"input": input} if input is not None else {"stdin": subprocess.DEVNULL}
         p = subprocess.run([GARDEN] + list(args), cwd=cwd, env=e,
                            stdout=subprocess.PIPE, stderr=subprocess.PIPE,
-                           timeout=timeout, **kw)
+                           timeout=timeout, preexec_fn=limit_memory, **kw)
         return p.returncode, p.stdout.decode("utf-8", "replace"), p.stderr.decode("utf-8", "replace")
     except subprocess.TimeoutExpired as ex:
         out = (ex.stdout or b"").decode("utf-8", "replace")
@@ -109,31 +119,75 @@ def pmap(fn, items, workers=NCPU):
 
 def _batch_chunk(mode, recs, timeout_per, env, cwd=None):
     """Run one verif-batch process over recs; restart after a process-level
-    death so that every record gets an answer."""
+    death or a stalled record so that every record gets an answer.  The
+    process is watched line by line: a record that produces no answer within
+    its allowance is reported as `timeout` and the rest is resumed."""
     results = []
     i = 0
     d = scratch_dir("batch")
+    e = dict(os.environ)
+    e.pop("GARDEN_VERIF_INTERRUPT_AT", None)
+    e.pop("GARDEN_VERIF_SCHED_SEED", None)
+    if env:
+        e.update(env)
+    stall = max(5.0, timeout_per * 4)
     try:
         while i < len(recs):
             path = os.path.join(d, f"in{i}.ndjson")
             with open(path, "w") as f:
                 for r in recs[i:]:
                     f.write(json.dumps(r) + "\n")
-            rc, out, err = garden(["verif-batch", mode, path],
-                                  timeout=max(20, timeout_per * (len(recs) - i)), env=env, cwd=cwd)
-            lines = [l for l in out.split("\n") if l.strip()]
-            got = []
-            for l in lines:
+            errf = open(os.path.join(d, "stderr"), "wb")
+            p = subprocess.Popen([GARDEN, "verif-batch", mode, path], cwd=cwd, env=e, stdin=subprocess.DEVNULL,
+                                 stdout=subprocess.PIPE, stderr=errf, preexec_fn=limit_memory)
+            q = queue.Queue()
+
+            def pump(out=p.stdout, q=q):
+                for line in out:
+                    q.put(line)
+                q.put(None)
+            th = threading.Thread(target=pump, daemon=True)
+            th.start()
+            got = 0
+            outcome = None
+            while i + got < len(recs):
                 try:
-                    got.append(json.loads(l))
-                except ValueError:
+                    line = q.get(timeout=stall)
+                except queue.Empty:
+                    outcome = "timeout"
                     break
-            results.extend(got)
-            i += len(got)
-            if i < len(recs) and (rc != 0 or rc is None or len(got) == 0):
-                # the process died (abort, stack overflow) or hung on record i
-                results.append({"outcome": "timeout" if rc is None else "died", "rc": rc,
-                                "stderr_tail": err[-300:], "id": recs[i].get("id")})
+                if line is None:
+                    outcome = "died"
+                    break
+                try:
+                    results.append(json.loads(line.decode("utf-8", "replace")))
+                    got += 1
+                except ValueError:
+                    outcome = "died"
+                    break
+            p.kill()
+            rc = p.wait()
+            th.join(timeout=5)
+            errf.close()
+            i += got
+            if i < len(recs) and outcome is not None:
+                with open(os.path.join(d, "stderr"), "rb") as ef:
+                    err = ef.read()[-300:].decode("utf-8", "replace")
+                if outcome == "timeout":
+                    # a stall under load is not a verdict: the record is run again on its own, generously
+                    one = os.path.join(d, "one.ndjson")
+                    with open(one, "w") as f:
+                        f.write(json.dumps(recs[i]) + "\n")
+                    rc1, out1, err1 = garden(["verif-batch", mode, one], timeout=max(30.0, stall * 6), env=env, cwd=cwd)
+                    try:
+                        results.append(json.loads(out1.strip().split("\n")[0]))
+                        i += 1
+                        continue
+                    except (ValueError, IndexError):
+                        if rc1 is not None:
+                            outcome, rc, err = "died", rc1, err1[-300:]
+                results.append({"outcome": outcome, "rc": None if outcome == "timeout" else rc,
+                                "stderr_tail": err, "id": recs[i].get("id")})
                 i += 1
         return results
     finally:
